@@ -154,3 +154,93 @@ def dag_jobs(shape, ext=("x", "y"), early=False):
         bound = [[p, f"bound.top.{p}"] for p, s in src.items() if s == "b"]
         provided = [[p, f"in.{p}"] for p, s in src.items() if s == "p"]
         yield IR.prog("top", nodes, bound=bound), provided, "".join(assign) + ("+early" if early else "")
+
+
+def enum_gated(cyclic=False, stride=1, offset=0):
+    """Small-scope gated family: chain A(x)->a, B(a)->b, C(b)->c (optionally A also reads c: a cycle),
+    one gate G over every input choice, target set, kind, default_open, list position and decision
+    script of length 2.  Yields (prog, provided, tag)."""
+    count = 0
+    for gin in ("x", "a", "b"):
+        for tset in (["A"], ["B"], ["C"], ["A", "B"], ["B", "C"], ["A", "C"]):
+            for with_end in (False, True):
+                targets = tset + (["END"] if with_end else [])
+                kinds = ["route", "multi"]
+                if len(targets) == 2:
+                    kinds.append("ifelse")
+                for kind in kinds:
+                    if kind == "multi":
+                        opts = [[IR.NONE]] + [[t] for t in targets] + ([list(tset)] if len(tset) == 2 else [])
+                    elif kind == "ifelse":
+                        opts = [[t] for t in targets]
+                    else:
+                        opts = [[IR.NONE]] + [[t] for t in targets]
+                    for script in itertools.product(opts, repeat=2):
+                        for dopen in (True, False):
+                            for pos in (0, 3):
+                                count += 1
+                                if (count + offset) % stride:
+                                    continue
+                                a_in = ["x", "c"] if cyclic else ["x"]
+                                nodes = [IR.func("A", a_in, ["a"]), IR.func("B", ["a"], ["b"]), IR.func("C", ["b"], ["c"])]
+                                if kind == "ifelse":
+                                    g = IR.ifelse("G", [gin], targets[0], targets[1], script, default_open=dopen)
+                                else:
+                                    g = IR.route("G", [gin], targets, script, multi=(kind == "multi"), default_open=dopen)
+                                nodes.insert(pos, g)
+                                prov = [["x", "in.x"]] + ([["c", "in.c"]] if cyclic else [])
+                                yield IR.prog("top", nodes, max_iter=10), prov, f"{kind}/{gin}/{'+'.join(targets)}/{'open' if dopen else 'closed'}/pos{pos}"
+
+
+def loop_template(m, shape, gatekind, exit_node, n_cont, entry=1, nested=False, max_iter=None, dopen=True):
+    """Gate-driven loop over state `s`.
+    while  : b1(s)->t1, b2(t1)->t2, ..., bm(t_{m-1})->s ; G(s) decides first.
+    dowhile: b1(s)->t1 (gate target), ..., bm(s, t_{m-1})->s emit done (self-accumulating);
+             G(s) wait_for done: the body runs once before the gate can decide (documented chat-loop shape).
+    Returns (prog, provided, meta)."""
+    body = []
+    for i in range(1, m + 1):
+        src = "s" if i == 1 else f"t{i-1}"
+        out = "s" if i == m else f"t{i}"
+        ins = [src]
+        kw = {}
+        if shape == "dowhile" and i == m:
+            if m > 1:
+                ins = ["s", src]
+            kw["outputs"] = ["s", "done"]
+            kw["ndata"] = 1
+            body.append(IR.normalize_node(dict(name=f"b{i}", kind="func", inputs=ins, **kw)))
+        else:
+            body.append(IR.func(f"b{i}", ins, [out]))
+    stop = "E" if exit_node else "END"
+    script = [["b1"]] * n_cont + [[stop]]
+    gkw = dict(default_open=dopen)
+    if shape == "dowhile":
+        gkw["wait_for"] = ["done"]
+    if gatekind == "ifelse":
+        g = IR.ifelse("G", ["s"], "b1", stop, script, **gkw)
+    else:
+        g = IR.route("G", ["s"], ["b1", stop], script, **gkw)
+    nodes = body + [g]
+    if exit_node:
+        nodes.append(IR.func("E", ["s"], ["out"]))
+    names = [n["name"] for n in body]
+    seed_name = "s" if entry == 1 else f"t{entry-1}"
+    if not nested:
+        seed = [[seed_name, f"in.{seed_name}"]]
+        prog = IR.prog("top", nodes, max_iter=max_iter or 60)
+        provided = seed
+        frame = ""
+    else:
+        res = "out" if exit_node else "s"
+        inner = IR.prog("loop", nodes, max_iter=1000, selected=[res], entry=["b1"] if m > 1 else [])
+        pre = IR.func("P", ["x"], ["s0"])
+        post = IR.func("Q", ["res"], ["final"])
+        gn = IR.graph_node(inner, inputs=["s0"], inmap=[["s0", "s"]], outputs=["res"], outmap=[[res, "res"]])
+        prog = IR.prog("top", [pre, gn, post], max_iter=max_iter or 60)
+        provided = [["x", "in.x"]]
+        seed = [["s", "P.s0(x=in.x)"]]
+        frame = "loop"
+    meta = {"shape": shape, "body": names, "gate": "G", "exit": "E" if exit_node else IR.NONE,
+            "entry": entry, "frame": frame, "seed": seed, "n_cont": n_cont}
+    return prog, provided, meta
